@@ -889,13 +889,54 @@ def run_case(case):
     return res
 
 
+def run_tv_case(case):
+    """stream `typevar-fields` (C10): classes in the same abstract format (no hooks, no defaults), annotations that mention
+    TypeVars (universe.render_tv hands out ONE TypeVar object per descriptor for the whole process, as a module-level
+    T = TypeVar('T') would), and a flat history of operations; operation i refers to the instance operation j < i produced.
+    -> {'tv': [[outcome code, exception type name], ...]}"""
+    anns = [U.render_ann(a) for a in case['anns']]
+    CUR.clear()
+    NAMES.clear()
+    CUR.update({'J': [], 'ann_class': {}, 'keep': anns, 'ever': [], 'good': {}, 'PENDING': [], 'field_idents': set()})
+    env = {'J': CUR['J'], 'PENDING': CUR['PENDING']}
+    for k, a in enumerate(anns):
+        env[f'ANN_{k}'] = a
+    try:
+        classes, call, text = build_module(case, env)
+    except BaseException as ex:
+        if isinstance(ex, (KeyboardInterrupt, SystemExit)):
+            raise
+        return {'decoration_failed': type(ex).__name__ + ': ' + str(ex)[:200]}
+    insts, out = [], []
+    for op in case['ops']:
+        kind = op[0]
+        if kind == 'ctor':
+            kw = {fname(n): U.render_val(v) for n, v in op[2]}
+            code, res = attempt(lambda: call(classes[op[1]], **kw))
+        else:
+            recv = insts[op[1]] if 0 <= op[1] < len(insts) else None
+            if recv is None:
+                insts.append(None)
+                out.append([98, None])
+                continue
+            if kind == 'validate':
+                code, res = attempt(lambda: call(recv.validate_types))
+            else:
+                kw = {fname(n): U.render_val(v) for n, v in op[2]}
+                code, res = attempt(lambda: call(getattr(recv, 'copy_with' if kind == 'copy' else 'deep_copy_with'), **kw))
+        insts.append(res if code == 0 and kind != 'validate' else None)
+        out.append([code, None if code == 0 else type(res).__name__])
+        del CUR['J'][:]
+    return {'tv': out}
+
+
 def main():
     cases = json.load(sys.stdin)
     signal.signal(signal.SIGALRM, _alarm)
     for c in cases:
         signal.alarm(60)
         try:
-            r = run_case(c)
+            r = run_tv_case(c) if c.get('kind') == 'tvfields' else run_case(c)
         except BaseException as ex:
             import traceback
             r = {'error': type(ex).__name__ + ': ' + str(ex)[:300], 'tb': traceback.format_exc(limit=4)[-600:]}
